@@ -178,6 +178,20 @@ def miserTopNoReset (f : List Rat → Rat) (pw23 : Rat → Rat) (region : List R
   | some o => some (mcVolume region * o.ave, o.pts, o.knife)
   | none => none
 
+/-- `Integrate_MC_Miser` as a transition of the file-static `iran`: it is set to 0 at ENTRY, before the first use
+    (as coded), and left at whatever value the run ended with; a call made while another Miser integration is running
+    (from inside its integrand) therefore starts from 0 whatever the enclosing run has done to the static -/
+def miserTopS (f : List Rat → Rat) (pw23 : Rat → Rat) (region : List Rat) (ncall : Int) (iranStatic : Nat) (g : G) :
+    Option (Rat × List (List Rat) × Bool) × Nat :=
+  match miser u01 f pw23 ncall.toNat.succ region ncall 0 g with
+  | some o => (some (mcVolume region * o.ave, o.pts, o.knife), o.iran)
+  | none => (none, iranStatic)
+
+/-- the variant that resets the static on EXIT (a guard object's destructor): the run starts from the incoming value -/
+def miserTopExitReset (f : List Rat → Rat) (pw23 : Rat → Rat) (region : List Rat) (ncall : Int) (iranStatic : Nat) (g : G) :
+    Option (Rat × List (List Rat) × Bool) × Nat :=
+  (miserTopNoReset u01 f pw23 region ncall iranStatic g, 0)
+
 end Generic
 
 /-! ### Vegas: per-axis sample formula and the re-initialisation blocks -/
